@@ -15,6 +15,8 @@ type verifPlaced struct {
 	obj        Object
 	body       []byte
 	isStream   bool
+	raw        []byte // streams: the bytes between "stream" EOL and the EOL before "endstream"
+	lenEnd     int64  // streams with an indirect /Length: end of the length object (0: direct)
 }
 
 // verifPlace locates every expected object of doc in the complete file using
@@ -43,7 +45,18 @@ func verifPlace(doc *verifDoc) []verifPlaced {
 		}
 		// the object is complete once the keyword endobj is there (o.end also
 		// counts the end-of-line after it)
-		out = append(out, verifPlaced{ref: ref, start: e.Pos, end: int64(o.end) - 1, obj: obj, body: body, isStream: isStream})
+		pl := verifPlaced{ref: ref, start: e.Pos, end: int64(o.end) - 1, obj: obj, body: body, isStream: isStream}
+		if isStream {
+			pl.raw = o.data
+			if lr, indirect := o.val.(Dict)["Length"].(Reference); indirect {
+				if le := doc.w.xref[lr.Number()]; le != nil {
+					if lo, ok := sIndirect(doc.file, le.Pos, func(Reference) (int64, bool) { return 0, false }); ok {
+						pl.lenEnd = int64(lo.end) - 1
+					}
+				}
+			}
+		}
+		out = append(out, pl)
 	}
 	for _, e := range doc.objs {
 		add(e.ref, e.obj, nil, false)
@@ -88,6 +101,12 @@ func verifCheckScan(doc *verifDoc, placed []verifPlaced, data []byte, cut int64)
 					raw, err2, _ := verifrt.ReadAll(stm.NewReader(), 4096, 8)
 					_ = err2
 					verifrt.Assert(int64(len(raw)) == stm.Length(), "raw stream data available")
+					// with a direct /Length, or an indirect one whose object
+					// is within the available bytes, the data is exactly
+					// what was written
+					if pl.lenEnd <= cut {
+						verifrt.Assert(bytes.Equal(raw, pl.raw), "reading a stream yields the bytes that were written")
+					}
 				}
 			} else {
 				verifrt.Assert(verifEqual(pl.obj, got), "reading yields the value that was written")
@@ -145,3 +164,47 @@ func Verif_C20_xref_damage() {
 }
 
 var _ = io.EOF
+
+// Verif_C20_indirect_length: a non-seekable sink and a stream of more than
+// 1024 bytes, so that /Length is an indirect object written after the stream;
+// the data ends in an end-of-line.  Every prefix from the end of the first
+// object on, and the intact file.
+func Verif_C20_indirect_length() {
+	verifrt.Unwind(100000)
+	doc := &verifDoc{version: V1_4}
+	var buf bytes.Buffer
+	w, err := NewWriter(&buf, V1_4, &WriterOptions{ID: [][]byte{[]byte("0123456789abcdef"), []byte("0123456789abcdef")}})
+	verifrt.Assert(err == nil, "NewWriter succeeds")
+	if err != nil {
+		return
+	}
+	r1 := w.Alloc()
+	o1 := Object(Dict{"A": String("abc")})
+	verifrt.Assert(w.Put(r1, o1) == nil, "Put succeeds")
+	doc.objs = append(doc.objs, verifExpObj{r1, o1})
+	body := make([]byte, 1100)
+	for i := range body {
+		body[i] = "0 0 m 100 100 l S "[i%18]
+	}
+	body[len(body)-1] = []byte{'\n', '\r', 'S'}[verifrt.Choice("lastbyte", 3)]
+	for k := 0; k < 1+verifrt.Tier(); k++ {
+		sr := w.Alloc()
+		ws, err := w.OpenStream(sr, Dict{"Kind": Name("S")})
+		verifrt.Assert(err == nil, "OpenStream succeeds")
+		ws.Write(body)
+		verifrt.Assert(ws.Close() == nil, "stream closes")
+		doc.stms = append(doc.stms, verifExpStm{sr, body})
+	}
+	doc.pagesRef = w.Alloc()
+	w.GetMeta().Catalog.Pages = doc.pagesRef
+	verifrt.Assert(w.Close() == nil, "Close succeeds")
+	doc.file = buf.Bytes()
+	doc.w = w
+	placed := verifPlace(doc)
+	verifrt.Assert(len(placed) >= 2 && placed[1].lenEnd > 0, "the stream has an indirect /Length")
+	// cuts inside the stream data are covered by Verif_C20_truncation's
+	// shapes; here: every cut after the stream's endobj
+	lo := int(placed[1].end)
+	cut := int64(verifrt.Len("cut", lo, len(doc.file)))
+	verifCheckScan(doc, placed, doc.file[:cut], cut)
+}
